@@ -1,7 +1,7 @@
 /- driver for C13: B/IP layers (component lockstep) and whole IP worlds (end-to-end) -/
 import BacVerif.Drv.Common
 import BacVerif.Model.Bip
-import BacVerif.Lemmas.BipOnce
+import BacVerif.Props.C13
 open Lean BacVerif BacVerif.Drv BacVerif.Bip
 
 /-! ### JSON → model -/
@@ -178,13 +178,21 @@ def netOfJson (j : Json) : R Net := do
 def jWorldDigest (w : World) : Json :=
   Json.arr (w.nets.flatMap fun n => n.nodes.map fun nd => Json.arr #[jAddr nd.addr, jKind nd.st]).toArray
 
-/-- the hypotheses of `bbmd_once`, evaluated (they are decidable) on the current world:
-    `ok` = WF ∧ Pop ∧ Mesh, `homes` = the nodes that are served by some BBMD (`Home`) -/
-def jHyp (w : World) : Json :=
+/-- the hypotheses of `bbmd_multiplicity` / `bbmd_once`, evaluated (they are decidable) on the
+    current world: `ok` = WF ∧ Pop ∧ Mesh, `noecho` = NoEcho, `homes` = the served nodes (`Home`)
+    with the multiplicity the theorem predicts for a broadcast from `o`: [x ≠ o] + echoes -/
+def jHyp (w : World) (o : Addr) : Json :=
   let ok := decide (WF w) && decide (Pop w) && decide (Mesh w)
   let bb := (nodesOf w).filterMap fun p => if p.2.isBbmd then some p.2.addr else none
   let homes := (nodesOf w).filter fun p => bb.any fun h => decide (Home w p.1 p.2 h)
-  Json.mkObj [("ok", Json.bool ok), ("homes", Json.arr (homes.map fun p => jAddr p.2.addr).toArray)]
+  let org := (nodesOf w).find? fun p => p.2.addr = o
+  let pred (p : Net × Node) : Nat :=
+    match org with
+    | some q => (if p.2.addr = o then 0 else 1) + BacVerif.C13.echoes w q.1 q.2 p.1 p.2
+    | none => 0
+  Json.mkObj [("ok", Json.bool ok), ("noecho", Json.bool (decide (NoEcho w))),
+    ("homes", Json.arr (homes.map fun p =>
+      Json.arr #[Json.num p.2.addr.ip, Json.num p.2.addr.port, Json.num (pred p)]).toArray)]
 
 def reply (r : World × List Obs × Bool) (br : String) : St × Json :=
   (.world r.1, Json.mkObj [("obs", Json.arr (r.2.1.map jObs).toArray), ("quiet", Json.bool r.2.2),
@@ -218,9 +226,10 @@ def handle (s : St) (j : Json) : R (St × Json) := do
     | .world w =>
         match op with
         | "bcast" =>
-            let r := w.broadcast (← addrOf (← fld j "a")) (← fldHex j "data")
+            let oa ← addrOf (← fld j "a")
+            let r := w.broadcast oa (← fldHex j "data")
             let (st, o) := reply r ("bcast:" ++ brOfObs r.2.1)
-            pure (st, o.setObjVal! "hyp" (jHyp w))
+            pure (st, o.setObjVal! "hyp" (jHyp w oa))
         | "ucast" =>
             let r := w.unicast (← addrOf (← fld j "a")) (← addrOf (← fld j "to")) (← fldHex j "data")
             pure (reply r ("ucast:" ++ brOfObs r.2.1))
